@@ -156,3 +156,126 @@ Proof.
       * intros Df. destruct (I2 Df) as (X & Y). rewrite B1 in X. auto.
       * rewrite I3, D, P4. reflexivity.
 Qed.
+
+(* ------------------------------------------------------------------ *)
+(** * the whole manifest round trip *)
+
+Lemma decode_fields_run tag : 1 <= tag <= 4 -> forall ss fuel rest acc,
+  Forall (fun s => length s < 128) ss ->
+  length ss <= fuel ->
+  decode_fields fuel (concat (map (field tag) ss) ++ rest) acc =
+  decode_fields (fuel - length ss) rest (fold_left (fun a s => push tag s a) ss acc).
+Proof.
+  intros T. induction ss as [|s ss IH]; intros fuel rest acc F L.
+  - cbn [map concat app fold_left length]. rewrite Nat.sub_0_r. reflexivity.
+  - inversion F; subst. cbn [length] in L. destruct fuel as [|fuel]; [lia|].
+    cbn [map concat]. unfold field at 1. rewrite <- !app_assoc. cbn [app decode_fields].
+    rewrite Nat2N.id.
+    replace ((tag * 8 + 2) mod 8) with 2 by (rewrite Nat.add_comm, Nat.mod_add by lia; reflexivity).
+    replace ((tag * 8 + 2) / 8) with tag by (rewrite Nat.add_comm, Nat.div_add by lia; cbn; lia).
+    assert (T1 : (1 <=? tag) = true) by (apply Nat.leb_le; lia).
+    assert (T4 : (tag <=? 4) = true) by (apply Nat.leb_le; lia).
+    rewrite T1, T4. cbn [Nat.eqb andb].
+    rewrite varint_decode_small by assumption.
+    rewrite app_length.
+    destruct (length s + length (concat (map (field tag) ss) ++ rest) <? length s) eqn:E;
+      [apply Nat.ltb_lt in E; lia|].
+    rewrite skipn_app, skipn_all, Nat.sub_diag, firstn_app, firstn_all, Nat.sub_diag. cbn [skipn firstn app].
+    rewrite app_nil_r. rewrite IH by (try assumption; lia). cbn [fold_left length]. reflexivity.
+Qed.
+
+Lemma fold_push1 ss : forall a, fold_left (fun a s => push 1 s a) ss a = mkl (http a ++ ss) (tls a) (tcp a) (udp a).
+Proof. induction ss as [|s ss IH]; intros a; cbn [fold_left]; [rewrite app_nil_r; destruct a; reflexivity|]. rewrite IH. cbn. rewrite <- app_assoc. reflexivity. Qed.
+Lemma fold_push2 ss : forall a, fold_left (fun a s => push 2 s a) ss a = mkl (http a) (tls a ++ ss) (tcp a) (udp a).
+Proof. induction ss as [|s ss IH]; intros a; cbn [fold_left]; [rewrite app_nil_r; destruct a; reflexivity|]. rewrite IH. cbn. rewrite <- app_assoc. reflexivity. Qed.
+Lemma fold_push3 ss : forall a, fold_left (fun a s => push 3 s a) ss a = mkl (http a) (tls a) (tcp a ++ ss) (udp a).
+Proof. induction ss as [|s ss IH]; intros a; cbn [fold_left]; [rewrite app_nil_r; destruct a; reflexivity|]. rewrite IH. cbn. rewrite <- app_assoc. reflexivity. Qed.
+Lemma fold_push4 ss : forall a, fold_left (fun a s => push 4 s a) ss a = mkl (http a) (tls a) (tcp a) (udp a ++ ss).
+Proof. induction ss as [|s ss IH]; intros a; cbn [fold_left]; [rewrite app_nil_r; destruct a; reflexivity|]. rewrite IH. cbn. rewrite <- app_assoc. reflexivity. Qed.
+
+Lemma fields_len_ge tag ss : length ss <= length (concat (map (field tag) ss)).
+Proof.
+  induction ss as [|s ss IH]; cbn [map concat length]; [lia|].
+  rewrite app_length. unfold field at 1. cbn [app length]. lia.
+Qed.
+
+Lemma Forall_weaken_len m (ss : list (list N)) :
+  Forall (fun s => length s <= m) ss -> m < 128 -> Forall (fun s => length s < 128) ss.
+Proof. intros F M. eapply Forall_impl; [|exact F]. cbn. intros; lia. Qed.
+
+Lemma decode_body l :
+  all_addr (fun s => length s <= 62) l ->
+  decode_fields (S (length (body l))) (body l) (mkl [] [] [] []) = Some l.
+Proof.
+  intros (A & B & C & D). destruct l as [h t c u]. cbn [http tls tcp udp] in *.
+  unfold body. cbn [http tls tcp udp].
+  pose proof (fields_len_ge 1 h). pose proof (fields_len_ge 2 t).
+  pose proof (fields_len_ge 3 c). pose proof (fields_len_ge 4 u).
+  rewrite !app_length.
+  rewrite (decode_fields_run 1 ltac:(lia) h) by (try (eapply Forall_weaken_len; [eassumption|lia]); lia).
+  rewrite fold_push1. cbn [http tls tcp udp app].
+  rewrite (decode_fields_run 2 ltac:(lia) t) by (try (eapply Forall_weaken_len; [eassumption|lia]); lia).
+  rewrite fold_push2. cbn [http tls tcp udp app].
+  rewrite (decode_fields_run 3 ltac:(lia) c) by (try (eapply Forall_weaken_len; [eassumption|lia]); lia).
+  rewrite fold_push3. cbn [http tls tcp udp app].
+  rewrite <- (app_nil_r (concat (map (field 4) u))) at 2.
+  rewrite (decode_fields_run 4 ltac:(lia) u) by (try (eapply Forall_weaken_len; [eassumption|lia]); lia).
+  rewrite fold_push4. cbn [http tls tcp udp app].
+  match goal with |- decode_fields ?f [] _ = _ => destruct f end; reflexivity.
+Qed.
+
+Lemma manifest_roundtrip_lemma l :
+  count l <= max_fds_out -> all_addr (fun s => length s <= 62) l ->
+  transfer l = ROk (pair_up l (seq 0 (count l))).
+Proof.
+  intros C A. unfold transfer.
+  assert (S1 : (scm_max_fd <? count l) = false) by (apply Nat.ltb_ge; unfold scm_max_fd, max_fds_out in *; lia).
+  rewrite S1. unfold receive. rewrite seq_length.
+  assert (S2 : (max_fds_out <? count l) = false) by (apply Nat.ltb_ge; lia).
+  rewrite S2.
+  rewrite firstn_all2 by (apply manifest_fits_lemma; assumption).
+  unfold encode.
+  pose proof (body_len 62 l A ltac:(lia)) as BL.
+  rewrite varint_decode_two by (unfold max_fds_out in C; nia).
+  rewrite Nat.ltb_irrefl, firstn_all.
+  rewrite (decode_body l A). rewrite S2, Nat.ltb_irrefl. reflexivity.
+Qed.
+
+Lemma combine_fst {A B} : forall (a : list A) (b : list B), length a = length b -> map fst (combine a b) = a.
+Proof. induction a as [|x a IH]; intros [|y b] L; cbn in *; try reflexivity; try discriminate. f_equal. apply IH. lia. Qed.
+Lemma combine_snd {A B} : forall (a : list A) (b : list B), length a = length b -> map snd (combine a b) = b.
+Proof. induction a as [|x a IH]; intros [|y b] L; cbn in *; try reflexivity; try discriminate. f_equal. apply IH. lia. Qed.
+
+Lemma skipn_add {A} a b : forall l : list A, skipn b (skipn a l) = skipn (a + b) l.
+Proof.
+  induction a as [|a IH]; intros l; [reflexivity|].
+  destruct l as [|x l]; cbn [Nat.add skipn]; [apply skipn_nil|apply IH].
+Qed.
+
+Lemma split4 {A} (l : list A) a b c :
+  firstn a l ++ firstn b (skipn a l) ++ firstn c (skipn (a + b) l) ++ skipn (a + b + c) l = l.
+Proof.
+  transitivity (firstn a l ++ skipn a l); [f_equal|apply firstn_skipn].
+  transitivity (firstn b (skipn a l) ++ skipn b (skipn a l)); [f_equal|apply firstn_skipn].
+  rewrite skipn_add.
+  transitivity (firstn c (skipn (a + b) l) ++ skipn c (skipn (a + b) l)); [|apply firstn_skipn].
+  f_equal. rewrite skipn_add. reflexivity.
+Qed.
+
+Lemma pair_up_order (l : listeners (list N)) :
+  map snd (http (pair_up l (seq 0 (count l))) ++ tls (pair_up l (seq 0 (count l))) ++
+           tcp (pair_up l (seq 0 (count l))) ++ udp (pair_up l (seq 0 (count l)))) = seq 0 (count l) /\
+  map fst (http (pair_up l (seq 0 (count l))) ++ tls (pair_up l (seq 0 (count l))) ++
+           tcp (pair_up l (seq 0 (count l))) ++ udp (pair_up l (seq 0 (count l)))) = http l ++ tls l ++ tcp l ++ udp l.
+Proof.
+  destruct l as [h t c u]. unfold pair_up, count. cbn [http tls tcp udp].
+  set (nh := length h). set (nt := length t). set (nc := length c). set (nu := length u).
+  set (fds := seq 0 (nh + nt + nc + nu)).
+  assert (LF : length fds = nh + nt + nc + nu) by (unfold fds; apply seq_length).
+  assert (L1 : length h = length (firstn nh fds)) by (rewrite firstn_length; unfold nh in *; lia).
+  assert (L2 : length t = length (firstn nt (skipn nh fds))) by (rewrite firstn_length, skipn_length; unfold nt in *; lia).
+  assert (L3 : length c = length (firstn nc (skipn (nh + nt) fds))) by (rewrite firstn_length, skipn_length; unfold nc in *; lia).
+  assert (L4 : length u = length (skipn (nh + nt + nc) fds)) by (rewrite skipn_length; unfold nu in *; lia).
+  rewrite !map_app, !combine_fst, !combine_snd by assumption. split; [|reflexivity].
+  apply split4.
+Qed.
